@@ -1,5 +1,4 @@
 """./check selftest setup|determinism   (not a property check)."""
-import json
 import os
 import sys
 import warnings
